@@ -35,6 +35,10 @@ pub enum COp {
     /// a reader that takes a snapshot while the writers run (fine-grained), rebuilds a level from it, empties
     /// that level with a draining match (both call-atomic) and reads its aggregates
     Restore,
+    /// a reader that prints the level as text while the writers run and parses the text back (call-atomically)
+    Show,
+    /// the same through the JSON form
+    ShowJson,
 }
 
 impl COp {
@@ -200,6 +204,8 @@ pub enum OpResult {
     Matched(MatchObs, Vec<Uuid>),
     Updated(UpdObs),
     Read(u64, u64, usize),
+    /// a printed form was parsed back: Ok, or the parser's complaint with the text
+    Shown(Option<String>),
     Panicked(String),
 }
 
@@ -328,6 +334,25 @@ pub fn run_op_on(level: &PriceLevel, generator: &UuidGenerator, book: &[Ord_], t
         COp::Read => {
             let s = sh.level.snapshot();
             OpResult::Read(s.visible_quantity, s.hidden_quantity, s.order_count)
+        }
+        COp::Show | COp::ShowJson => {
+            use std::str::FromStr;
+            let text = if op == COp::Show { Ok(sh.level.to_string()) } else { serde_json::to_string(sh.level).map_err(|e| e.to_string()) };
+            let was_coarse = sched::is_coarse(tid);
+            sched::set_coarse(tid, true);
+            let verdict = match text {
+                Err(e) => Some(format!("the level could not be serialized: {e}")),
+                Ok(t) => {
+                    let r = if op == COp::Show {
+                        PriceLevel::from_str(&t).map(|_| ()).map_err(|e| e.to_string())
+                    } else {
+                        serde_json::from_str::<PriceLevel>(&t).map(|_| ()).map_err(|e| e.to_string())
+                    };
+                    r.err().map(|e| format!("{e}; text: {t}"))
+                }
+            };
+            sched::set_coarse(tid, was_coarse);
+            OpResult::Shown(verdict)
         }
         COp::Restore => {
             let s = sh.level.snapshot();
@@ -989,6 +1014,18 @@ pub fn evaluate(prog: &Program, ex: &Exec, want_c14: bool) -> Vec<Finding> {
                         "a reader in thread {tid} saw visible={v} hidden={h} count={c}, more than was ever supplied ({bt}, {bc} orders){}",
                         if prog.threads[tid].contains(&COp::Restore) { " - on the level it rebuilt from its snapshot, after emptying it with a match" } else { "" }));
                 }
+            }
+        }
+    }
+
+    // ---- C16 / C17: a form printed while writers run must still be something the library's own parser accepts
+    for (tid, rs) in ex.results.iter().enumerate() {
+        for (i, r) in rs.iter().enumerate() {
+            if let OpResult::Shown(Some(m)) = r {
+                let json = prog.threads[tid].get(i) == Some(&COp::ShowJson);
+                add(if json { "C17" } else { "C16" }, "unparsable_when_printed_concurrently", false, format!(
+                    "thread {tid} printed the level as {} while other threads were writing and the library's parser refuses the result: {m}",
+                    if json { "JSON" } else { "text" }));
             }
         }
     }
